@@ -116,7 +116,9 @@ def run_job(job, findings_open):
         pidx = state["path"]
         res["notes"] = list(dict.fromkeys(res["notes"] + [str(n) for n in c.notes]))[:50]
         # reachability witness + encoding validation on the first paths
-        if res["reach"]["witness_checked"] < job.opts.get("witness_paths", 2):
+        res["reach"]["attempts"] = res["reach"].get("attempts", 0) + 1
+        if res["reach"]["witness_checked"] < job.opts.get("witness_paths", 2) and \
+                res["reach"]["attempts"] <= job.opts.get("witness_attempts", 4):
             _, vals = concretise(c, [], timeout_ms=job.opts.get("witness_timeout_ms", 10000))
             if vals is not None:
                 res["reach"]["paths_with_model"] += 1
